@@ -48,6 +48,8 @@ func init() {
 			{ID: "C09-R22", Title: "immutable values are not written by their methods (shared with C16-R22)", Floor: 50, Run: immutableValuesAreNotWrittenByTheirMethods},
 			{ID: "C09-R23", Title: "process-wide objects of the standard library are not configured", Floor: 1, Run: processWideObjectsAreNotConfigured},
 			{ID: "C09-R24", Title: "read-only operations do not write the container (shared with C16-R30)", Floor: 20, Run: readOnlyOperationsDoNotWriteTheContainer},
+			{ID: "C09-R25", Title: "an importer's failure is not taken for absence, also by those who waited for it (shared with C14-R24)", Floor: 2, Run: importerFailuresAreNotTakenForAbsence},
+			{ID: "C09-R26", Title: "importers remember only successes (shared with C18-R21)", Floor: 2, Run: importersRememberOnlySuccesses},
 		},
 	})
 }
